@@ -4,9 +4,11 @@ import (
 	"bytes"
 	"fmt"
 	"math"
+	"runtime"
 	"sync"
 	"sync/atomic"
 	"testing"
+	"time"
 
 	badger "github.com/dgraph-io/badger/v4"
 	"pgregory.net/rapid"
@@ -132,7 +134,12 @@ func TestC29_DropMultiTable(t *testing.T) {
 		func(rt *rapid.T) Program {
 			return GenProgram(rt, GenCfg{DB: dbx.GenCfg{AllowManaged: true, AllowEnc: true, KeepVersions: []int{1, 2, 0}}, MinOps: 8, MaxOps: 36, BigValues: true, MinKeys: 6, MaxKeys: 12,
 				Weights: map[string]int{"fill": 10, "deepen": 5, "txn": 4, "flush": 3, "compact": 5, "dropprefix": 8, "dropall": 1, "reopen": 2, "iter": 1, "begin": 1},
-				FixSpec: func(s *dbx.Spec) { s.InMemory = false; s.BaseTableSize = 1 << 11; s.MemTableSize = 1 << 15; s.BlockSize = 512 }})
+				FixSpec: func(s *dbx.Spec) {
+					s.InMemory = false
+					s.BaseTableSize = 1 << 11
+					s.MemTableSize = 1 << 15
+					s.BlockSize = 512
+				}})
 		},
 		func(p Program, rec *evid.Rec) (core.Result, error) {
 			in, err := Run(p, extSetup(map[string]func(*Interp, Op) error{"dropprefix": dropPrefixOp, "dropall": dropAllOp}))
@@ -228,7 +235,16 @@ func runC29Conc(c c29Conc, rec *evid.Rec) (core.Result, error) {
 			dropErr = db.DropPrefix([]byte("P/"))
 		}
 	}()
-	wg.Wait()
+	allDone := make(chan struct{})
+	go func() { wg.Wait(); close(allDone) }()
+	select {
+	case <-allDone:
+	case <-time.After(120 * time.Second):
+		in.db = nil // wedged: do not try to close it
+		buf := make([]byte, 1<<20)
+		n := runtime.Stack(buf, true)
+		return res, fmt.Errorf("the writers and the drop did not all return within 120 s (normal: milliseconds)\n%s", buf[:min(n, 8000)])
+	}
 	once.Do(func() { close(startDrop) })
 	if dropErr != nil {
 		return res, fmt.Errorf("drop: %v", dropErr)
@@ -299,15 +315,25 @@ func runC29Conc(c c29Conc, rec *evid.Rec) (core.Result, error) {
 	// the database keeps accepting writes, also under the dropped prefix
 	nk := []byte("P/after")
 	upd := func(txn *badger.Txn) error { return txn.Set(nk, []byte("x")) }
-	if managed {
-		txn := db.NewTransactionAt(math.MaxUint64, true)
-		err = upd(txn)
-		if err == nil {
-			err = txn.CommitAt(ts+100, nil)
+	postDone := make(chan error, 1)
+	go func() {
+		if managed {
+			txn := db.NewTransactionAt(math.MaxUint64, true)
+			e := upd(txn)
+			if e == nil {
+				e = txn.CommitAt(ts+100, nil)
+			}
+			txn.Discard()
+			postDone <- e
+		} else {
+			postDone <- db.Update(upd)
 		}
-		txn.Discard()
-	} else {
-		err = db.Update(upd)
+	}()
+	select {
+	case err = <-postDone:
+	case <-time.After(120 * time.Second):
+		in.db = nil
+		return res, fmt.Errorf("a write issued after the drop had returned did not return within 120 s: the database no longer accepts writes")
 	}
 	if err != nil {
 		return res, fmt.Errorf("write after the drop: %v", err)
